@@ -70,3 +70,43 @@ def make_multiplex(daemon):
 
 def make_job(daemon, csock):
     return svr_threads.ClientConnectionJob(csock, csock.peer, daemon)
+
+
+class SyncPool:
+    """worker pool stand-in: the job runs to completion in the calling thread (one worker per connection;
+    the pool itself is the subject of C18)"""
+
+    def __init__(self):
+        self.jobs = 0
+
+    def process(self, job):
+        self.jobs += 1
+        job()
+
+    def close(self):
+        pass
+
+
+class ReadySelector:
+    def select(self, timeout=None):
+        return [("listen", 1)]
+
+    def close(self):
+        pass
+
+    def register(self, *a):
+        pass
+
+
+def make_threadpool(daemon, pool=None):
+    srv = svr_threads.SocketServer_Threadpool.__new__(svr_threads.SocketServer_Threadpool)
+    srv.daemon = daemon
+    srv.sock = ListenSock()
+    srv.shutting_down = False
+    srv.housekeeper = None
+    srv._socketaddr = ("127.0.0.1", 9999)
+    srv.locationStr = "127.0.0.1:9999"
+    srv.pool = pool or SyncPool()
+    srv._selector = ReadySelector()
+    daemon.transportServer = srv
+    return srv
